@@ -87,14 +87,15 @@ def is_simple(vs):
     return True
 
 
-def slab_oracle(vs):
+def slab_oracle6(vs):
     """exact (rational) integrals over the even-odd interior of a simple polygon by horizontal slabs:
-    A = area, Mr = int r dA, Mz = int z dA, Mrz = int r z dA.  Scan-line, no shoelace, no triangulation.
-    Within a slab the crossing abscissae are linear in z, so Simpson's rule is exact for all four integrands."""
+    A = area, Mr = int r dA, Mz = int z dA, Mrz = int r z dA, Mrr = int r^2 dA, Mzz = int z^2 dA.
+    Scan-line, no shoelace, no triangulation.  Within a slab the crossing abscissae are linear in z, so every integrand is a
+    polynomial of degree <= 3 in z and Simpson's rule is exact."""
     P = [(Fr(x), Fr(y)) for x, y in vs]
     n = len(P)
     levels = sorted(set(p[1] for p in P))
-    A = Mr = Mz = Mrz = Fr(0)
+    A = Mr = Mz = Mrz = Mrr = Mzz = Fr(0)
     for za, zb in zip(levels, levels[1:]):
         zm = (za + zb) / 2
         act = []
@@ -113,19 +114,26 @@ def slab_oracle(vs):
         assert len(act) % 2 == 0
 
         def LQ(z):
-            L = Q = Fr(0)
+            L = Q = C = Fr(0)
             for k in range(0, len(act), 2):
                 r1, r2 = r_at(act[k], z), r_at(act[k + 1], z)
                 L += r2 - r1
                 Q += (r2 * r2 - r1 * r1) / 2
-            return L, Q
+                C += (r2 * r2 * r2 - r1 * r1 * r1) / 3
+            return L, Q, C
         h = zb - za
-        (La, Qa), (Lm, Qm), (Lb, Qb) = LQ(za), LQ(zm), LQ(zb)
+        (La, Qa, Ca), (Lm, Qm, Cm), (Lb, Qb, Cb) = LQ(za), LQ(zm), LQ(zb)
         A += h / 6 * (La + 4 * Lm + Lb)
         Mr += h / 6 * (Qa + 4 * Qm + Qb)
         Mz += h / 6 * (za * La + 4 * zm * Lm + zb * Lb)
         Mrz += h / 6 * (za * Qa + 4 * zm * Qm + zb * Qb)
-    return A, Mr, Mz, Mrz
+        Mrr += h / 6 * (Ca + 4 * Cm + Cb)
+        Mzz += h / 6 * (za * za * La + 4 * zm * zm * Lm + zb * zb * Lb)
+    return A, Mr, Mz, Mrz, Mrr, Mzz
+
+
+def slab_oracle(vs):
+    return slab_oracle6(vs)[:4]
 
 
 def inside_even_odd(px, py, vs):
@@ -478,6 +486,11 @@ def compare_job(ctx, tag, out):
         _, desc, obs = tag
         if out.strip() != str(obs):
             _disagree(ctx, 'find', dict(model=out, implementation=obs, input=desc))
+    elif kind == 'hist':
+        _, desc, obs = tag
+        mod = [b2f(x) for x in out.split()]
+        if len(mod) != len(obs) or not all(close(a, b, 1e-12) for a, b in zip(mod, obs)):
+            _disagree(ctx, 'hist', dict(model=mod, implementation=obs, input=desc))
     elif kind == 'bad':
         _, desc, obs = tag
         if out.strip() != obs:
@@ -704,6 +717,12 @@ def run(ctx):
         if not okc:
             ctx.fail('C17:find_index:contract', 'find_index(%r, %r) = %r' % (xs, v, obs), dict(check='find', x=xs, v=v))
 
+    # ---- aliasing histories and collection state histories ----------------------------------------------------------------------
+    pool = [v for v in voxels_for_grid if len(v) <= 8][:ctx.n(14, 120)]
+    quads_pool = [quad_polygon(rng, k) for k in ('trapezoid', 'rectangle', 'parallelogram', 'kite', 'trapezoid-v', 'rectangle')]
+    alias_histories(ctx, jobs, pool[:ctx.n(8, 60)] + quads_pool)
+    grid_histories(ctx, jobs, pool + quads_pool)
+
     # ---- run the driver on geometry/grid/find lines -----------------------------------------------------------------------------
     outs = ctx.driver([j[0] for j in jobs])
     for (line, tag), o in zip(jobs, outs):
@@ -758,6 +777,9 @@ def run(ctx):
     rng.shuffle(stat_cases)
     for c, vox, mom in stat_cases[:ctx.n(12, 200)]:
         statistical_mean(ctx, c, vox, mom, flags, ctx.n(40000, 300000))
+
+    # ---- quadrilaterals in every listing: sampling must not depend on the start vertex ---------------------------------------------------
+    quad_sampling(ctx, flags, ctx.n(10, 100), ctx.n(6000, 30000))
 
     # ---- float-gap monitor -> demonstration on the implementation --------------------------------------------------------------------------
     ctx.extra['monitor_tri_index_in_range'] = dict(polygons=monitor['polygons'], polygons_with_reachable_out_of_range=monitor['reachable'],
@@ -949,6 +971,315 @@ def demonstrate_oob(ctx, verts, seed_, n, flags, source, p=None):
     return False
 
 
+# ------------------------------------------------------------------------------------------------------
+# quadrilaterals that look like rectangles to `_has_rectangular_cross_section` (4 vertices, equal diagonals, axis-parallel
+# first edge): isosceles trapezoids, plus rectangles, parallelograms, kites — sampling must not depend on the start vertex
+# ------------------------------------------------------------------------------------------------------
+def quad_polygon(rng, kind):
+    """dyadic coordinates (k/16): symmetric shapes stay exactly symmetric in doubles, so equal diagonals are *exactly* equal"""
+    q = lambda lo, hi: rng.randint(lo, hi) / 16.0
+    c, z0 = q(40, 200), q(-100, 100)
+    if kind == 'trapezoid':            # isosceles, parallel sides horizontal; listed starting with a parallel side
+        a, b, h = q(6, 30), q(1, 30), q(4, 30)
+        while abs(a - b) < 0.2:
+            b = q(1, 30)
+        vs = [(c - a, z0), (c + a, z0), (c + b, z0 + h), (c - b, z0 + h)]
+    elif kind == 'trapezoid-v':        # parallel sides vertical
+        a, b, h = q(6, 30), q(1, 30), q(4, 30)
+        while abs(a - b) < 0.2:
+            b = q(1, 30)
+        vs = [(c, z0 - a), (c, z0 + a), (c + h, z0 + b), (c + h, z0 - b)]
+    elif kind == 'rectangle':
+        a, h = q(4, 30), q(4, 30)
+        vs = [(c - a, z0), (c + a, z0), (c + a, z0 + h), (c - a, z0 + h)]
+    elif kind == 'parallelogram':
+        a, h, sh = q(4, 30), q(4, 30), q(2, 20)
+        vs = [(c - a, z0), (c + a, z0), (c + a + sh, z0 + h), (c - a + sh, z0 + h)]
+    elif kind == 'kite':               # equal diagonals when p + s == 2 w
+        w, p = q(4, 20), q(2, 12)
+        s_ = 2 * w - p if rng.random() < 0.5 and 2 * w - p > 0.1 else q(2, 30)
+        vs = [(c, z0 - p), (c + w, z0), (c, z0 + s_), (c - w, z0)]
+    else:
+        raise ValueError(kind)
+    if rng.random() < 0.5:
+        vs = vs[::-1]
+        vs = vs[-1:] + vs[:-1] if kind.startswith('trapezoid') or kind == 'rectangle' else vs   # keep a parallel side first
+    return vs
+
+
+QUAD_FUNCS = {
+    'linear': lambda x, y: 0.25 + 1.0 * x - 0.5 * y,
+    'quadratic': lambda x, y: 0.1 + 0.3 * x + x * x + 0.75 * x * y - 0.5 * y * y,
+}
+
+
+def _exact_mean(name, mom6, r0, z0, span):
+    """exact mean over the cross-section of QUAD_FUNCS[name]((r - r0)/span, (z - z0)/span) from the scan-line moments"""
+    A, Mr, Mz, Mrz, Mrr, Mzz = mom6
+    R0, Z0, SP = Fr(r0), Fr(z0), Fr(span)
+    ex = (Mr / A - R0) / SP
+    ey = (Mz / A - Z0) / SP
+    exx = (Mrr / A - 2 * R0 * Mr / A + R0 * R0) / (SP * SP)
+    eyy = (Mzz / A - 2 * Z0 * Mz / A + Z0 * Z0) / (SP * SP)
+    exy = (Mrz / A - R0 * Mz / A - Z0 * Mr / A + R0 * Z0) / (SP * SP)
+    if name == 'linear':
+        return float(Fr(0.25) + ex - Fr(0.5) * ey)
+    return float(Fr(0.1) + Fr(0.3) * ex + exx + Fr(0.75) * exy - Fr(0.5) * eyy)
+
+
+def quad_sampling(ctx, flags, nquads, nsamp):
+    """every rotation x orientation of each quadrilateral: all sample points inside the polygon, the estimate of a linear and of
+    a quadratic emission function within 5 sigma of the exact polygon mean, per-listing means mutually consistent; K on a short
+    prefix of the sampled sequence"""
+    from raysect.core.math.random import seed
+    rng = ctx.rng
+    kinds = ['trapezoid', 'trapezoid-v', 'rectangle', 'parallelogram', 'kite']
+    klines, kcases = [], []
+    for it in range(nquads):
+        kind = kinds[it % len(kinds)]
+        vs = quad_polygon(rng, kind)
+        if not is_simple(vs):
+            continue
+        mom6 = slab_oracle6(vs)
+        A = mom6[0]
+        r0, z0 = float(mom6[1] / A), float(mom6[2] / A)
+        span = max(max(x for x, _ in vs) - min(x for x, _ in vs), max(y for _, y in vs) - min(y for _, y in vs))
+        means = {}
+        for (rev, k), w in variants(vs):
+            g = impl_geom(w)
+            if g['status'] != 'ok':
+                ctx.fail('C17:AxisymmetricVoxel:rejects-simple-polygon:' + g['status'], 'AxisymmetricVoxel(%r) raised' % (w,), dict(check='quad', vertices=w, kind=kind))
+                continue
+            ctx.count('quad:' + kind)
+            for fname, fn in QUAD_FUNCS.items():
+                pts, vals = [], []
+
+                def f(r, phi, z, fn=fn):
+                    pts.append((r, z))
+                    v = fn((r - r0) / span, (z - z0) / span)
+                    vals.append(v)
+                    return v
+                seed_ = rng.randrange(1, 2 ** 62)
+                desc = dict(check='quad', kind=kind, vertices=w, base=vs, reversed=rev, rotation=k, function=fname, seed=seed_, grid_samples=nsamp)
+                seed(seed_)
+                st, est = call(g['voxel'].emissivity_from_function, f, nsamp)
+                ctx.case(key=('quad', kind, fname, tuple(f2b(c) for c in flat(w)), seed_),
+                         sample=dict(stream='quad', kind=kind, vertices=w, function=fname, seed=seed_, grid_samples=nsamp) if (rev, k) == (False, 0) and fname == 'linear' and it < 2 else None)
+                if st != 'ok':
+                    ctx.fail('C17:emissivity_from_function:raised', 'raised %s on %r' % (st, w), desc)
+                    continue
+                outside = [(r, z) for r, z in pts if not (inside_even_odd(r, z, w) or edge_distance(r, z, w) <= 1e-9 * max(abs(c) for c in flat(w)))]
+                if outside:
+                    ctx.fail('C17:emissivity_from_function:sample-outside-cross-section',
+                             '%d of %d sample points lie outside the %s %r (first: %r); listing reversed=%s rotation=%d' % (len(outside), len(pts), kind, w, outside[0], rev, k), desc)
+                m = sum(vals) / len(vals)
+                sig = math.sqrt(sum((v - m) ** 2 for v in vals) / (len(vals) - 1) / len(vals))
+                true_mean = _exact_mean(fname, mom6, r0, z0, span)
+                if abs(est - true_mean) > 5 * sig + 1e-12:
+                    ctx.fail('C17:emissivity_from_function:biased-mean',
+                             '%s %r (reversed=%s rotation=%d): estimate of the %s function %r over %d samples, exact polygon mean %r, 5 sigma = %r'
+                             % (kind, w, rev, k, fname, est, nsamp, true_mean, 5 * sig), desc)
+                prev = means.get(fname)
+                if prev is not None and abs(est - prev[0]) > 5 * math.sqrt(sig * sig + prev[1] * prev[1]) + 1e-12:
+                    ctx.fail('C17:emissivity_from_function:depends-on-start-vertex',
+                             '%s: estimate %r for listing (reversed=%s rotation=%d) vs %r for listing %r of the same polygon (%s function)' % (kind, est, rev, k, prev[0], prev[2], fname), desc)
+                means.setdefault(fname, (est, sig, (rev, k)))
+            # K: a short seeded prefix, model vs implementation, for this listing
+            c = emis_case(ctx, g, dict(kind='quad-' + kind, placement='quad', vertices=w), 12, [0.5, 0.25, -0.125, 0.0625], rng.randrange(1, 2 ** 62))
+            kcases.append((c, g))
+            klines.append(line_emis(c['verts'], c['tris'], c['n'], c['coef'], c['us']))
+    couts = ctx.driver([line_cum(c['verts'], c['tris']) for c, _ in kcases])
+    outs = ctx.driver(klines)
+    for (c, g), co, o in zip(kcases, couts, outs):
+        vals = [b2f(x) for x in co.split()]
+        c['total'], c['cum'] = vals[0], vals[1:]
+        if any(vals[0] * c['us'][3 * i] >= vals[-1] for i in range(c['n'])) and not flags['clamped']:
+            continue
+        compare_emis(ctx, c, o, run_emis_real(c, g), flags)
+
+
+# ------------------------------------------------------------------------------------------------------
+# aliasing histories: the voxel must own its vertices
+# ------------------------------------------------------------------------------------------------------
+def _snapshot(v):
+    c = call(lambda: v.cross_section_centroid)
+    return (v.cross_sectional_area, (c[1].x, c[1].y) if c[0] == 'ok' else c[0], v.volume, [(p.x, p.y) for p in v.vertices])
+
+
+def alias_histories(ctx, jobs, polys):
+    from raysect.core import Point2D
+    rng = ctx.rng
+    AxisymmetricVoxel, ToroidalVoxelGrid = voxmod().AxisymmetricVoxel, voxmod().ToroidalVoxelGrid
+    for vs0 in polys:
+        for rev in (False, True):
+            vs = vs0[::-1] if rev else list(vs0)
+            ref = _snapshot(AxisymmetricVoxel([tuple(p) for p in vs]))
+            # (a) input-type independence
+            inputs = {
+                'list-of-tuples': lambda: [tuple(p) for p in vs],
+                'list-of-lists': lambda: [list(p) for p in vs],
+                'Point2D': lambda: [Point2D(*p) for p in vs],
+                'ndarray-c': lambda: np.array(vs, dtype=np.float64),
+                'ndarray-f': lambda: np.asfortranarray(np.array(vs, dtype=np.float64)),
+                'ndarray-row-view': lambda: np.array([vs, vs[::-1], vs], dtype=np.float64)[0],
+                'ndarray-strided': lambda: np.array([(x, y, 9.0) for x, y in vs], dtype=np.float64)[:, :2],
+                'ndarray-every-other-row': lambda: np.array([p for q in vs for p in (q, (99.0, 99.0))], dtype=np.float64)[::2],
+            }
+            for name, mk in inputs.items():
+                arr = mk()
+                keep = arr.copy() if isinstance(arr, np.ndarray) else None
+                desc = dict(check='alias', vertices=vs, input=name, reversed=rev)
+                st, v = call(AxisymmetricVoxel, arr)
+                ctx.count('alias:' + name)
+                ctx.case(key=('alias', name, rev, tuple(f2b(c) for c in flat(vs))),
+                         sample=dict(stream='alias', input=name, vertices=vs) if name == 'ndarray-c' and not rev and rng.random() < 0.2 else None)
+                if st != 'ok':
+                    ctx.fail('C17:AxisymmetricVoxel:rejects-' + name, 'AxisymmetricVoxel(%s of %r) raised %s: %s' % (name, vs, st, v), desc)
+                    continue
+                snap = _snapshot(v)
+                if snap != ref:
+                    ctx.fail('C17:AxisymmetricVoxel:depends-on-input-type', 'vertices given as %s: %r; as a list of tuples: %r' % (name, snap[:3], ref[:3]), desc)
+                if keep is None:
+                    continue
+                # (b) construction must not write into the caller's array
+                if not np.array_equal(arr, keep):
+                    ctx.fail('C17:AxisymmetricVoxel:modifies-caller-array',
+                             'constructing a voxel from the %s %r changed the caller\'s array to %r' % (name, keep.tolist(), arr.tolist()), desc)
+                # (c) … and later edits / reuse of the caller's array must not reach the voxel
+                for how in ('scale', 'scratch-reuse', 'zero'):
+                    if how == 'scale':
+                        arr *= 1.5
+                    elif how == 'scratch-reuse':
+                        arr[:] = np.array([(7.0 + i, 3.0 + (i * i) % 5) for i in range(len(vs))])
+                    else:
+                        arr[:] = 0.0
+                    after = _snapshot(v)
+                    if after != snap:
+                        ctx.fail('C17:AxisymmetricVoxel:aliases-caller-array',
+                                 'voxel built from the %s %r: after the caller\'s array was modified (%s) area/centroid/volume changed from %r to %r'
+                                 % (name, keep.tolist(), how, snap[:3], after[:3]), dict(desc, mutation=how))
+                        break
+                # K: the model on the original coordinates vs what the voxel reports after the caller's edits
+                a, c_, vol, verts = _snapshot(v)
+                if not isinstance(c_, str):
+                    jobs.append((line_geom(vs), ('geom', desc, verts, (a, c_[0], c_[1], vol), 0.0, 0.0)))
+    # grids built from one coordinate array (m, k, 2): row views are what ToroidalVoxelGrid hands to each voxel
+    quads = [p for p in polys if len(p) == 4]
+    for it in range(min(len(quads) // 2, 6)):
+        cells = quads[2 * it:2 * it + 2] + [quads[(2 * it + 3) % len(quads)][::-1]]
+        big = np.array(cells, dtype=np.float64)
+        keep = big.copy()
+        desc = dict(check='alias-grid', cells=[list(map(tuple, c)) for c in keep.tolist()])
+        st, grid = call(ToroidalVoxelGrid, big)
+        ctx.count('alias:grid-from-ndarray')
+        ctx.case(key=('alias-grid', tuple(f2b(c) for c in keep.flatten())))
+        if st != 'ok':
+            ctx.fail('C17:ToroidalVoxelGrid:raised', 'ToroidalVoxelGrid(ndarray) raised %s: %s' % (st, grid), desc)
+            continue
+        ref_tv = float(sum((2 * Fr(PI) * slab_oracle([tuple(p) for p in c])[1] for c in keep.tolist()), Fr(0)))
+        tv0 = grid.total_volume
+        snaps = [_snapshot(v) for v in grid]
+        if not np.array_equal(big, keep):
+            ctx.fail('C17:AxisymmetricVoxel:modifies-caller-array', 'ToroidalVoxelGrid(ndarray) changed the caller\'s coordinate array: %r -> %r' % (keep.tolist(), big.tolist()), desc)
+        big *= 2.0
+        tv1 = grid.total_volume
+        if not close(tv1, tv0, 1e-14) or [_snapshot(v) for v in grid] != snaps or not close(tv1, ref_tv, 1e-9):
+            ctx.fail('C17:AxisymmetricVoxel:aliases-caller-array',
+                     'grid built from a coordinate ndarray: after the caller rescaled the array total_volume went from %r to %r (exact %r)' % (tv0, tv1, ref_tv), desc)
+        jobs.append(('tot ' + fs([v.volume for v in grid]), ('tot', desc, float(tv1))))
+
+
+# ------------------------------------------------------------------------------------------------------
+# state histories of the collection: total_volume counts all voxels, whatever is active / parented
+# ------------------------------------------------------------------------------------------------------
+def _apply_op(grid, op):
+    if op[0] == 'A':
+        grid.set_active('all')
+    elif op[0] == 'S':
+        grid.set_active(op[1])
+    elif op[0] == 'U':
+        grid.unparent_all_voxels()
+    elif op[0] == 'P':
+        grid.parent_all_voxels()
+    elif op[0] == 'X':
+        grid[op[1]].parent = grid if op[2] else None
+    elif op[0] == 'W':            # move the whole grid in/out of a scene: not an operation of the model (no effect on it)
+        from raysect.optical import World
+        grid.parent = World() if op[1] else None
+
+
+def _op_tokens(op):
+    return {'A': 'A', 'S': 'S %d' % op[1] if op[0] == 'S' else '', 'U': 'U', 'P': 'P',
+            'X': 'X %d %d' % (op[1], int(op[2])) if op[0] == 'X' else '', 'W': ''}[op[0]]
+
+
+def grid_histories(ctx, jobs, polys):
+    rng = ctx.rng
+    ToroidalVoxelGrid = voxmod().ToroidalVoxelGrid
+    histories = []
+    m0 = 3
+    alphabet = [('A',), ('U',), ('P',), ('W', True), ('W', False)] + [('S', i) for i in range(m0)] + [('X', 0, False), ('X', 1, True), ('S', m0 + 2)]
+    # exhaustive short histories on a 3-voxel grid x every `active=` constructor argument
+    for act in ['all'] + list(range(m0)):
+        for a in alphabet:
+            histories.append((m0, act, [a]))
+            for b in alphabet:
+                histories.append((m0, act, [a, b]))
+                if ctx.tier == 'thorough':
+                    for c in alphabet:
+                        histories.append((m0, act, [a, b, c]))
+    for _ in range(ctx.n(40, 600)):
+        m = rng.randint(1, 6)
+        ops = []
+        for _k in range(rng.randint(1, 10)):
+            t = rng.random()
+            ops.append(('A',) if t < 0.15 else ('S', rng.randrange(m + 1)) if t < 0.45 else ('U',) if t < 0.6 else ('P',) if t < 0.7
+                       else ('X', rng.randrange(m), rng.random() < 0.5) if t < 0.9 else ('W', rng.random() < 0.5))
+        histories.append((m, rng.choice(['all'] + list(range(m))), ops))
+    ctx.extra['grid_histories'] = dict(exhaustive_length=3 if ctx.tier == 'thorough' else 2, alphabet=len(alphabet), total=len(histories))
+    for m, act, ops in histories:
+        cells = [polys[(7 * i + len(ops) + (act if isinstance(act, int) else 0)) % len(polys)] for i in range(m)]
+        desc = dict(check='hist', cells=cells, active=act, ops=[list(o) for o in ops])
+        st, grid = call(ToroidalVoxelGrid, cells, active=act)
+        ctx.case(key=('hist', m, str(act), tuple(ops)), sample=dict(stream='hist', voxels=m, active=act, ops=[list(o) for o in ops]) if len(ops) == 4 else None)
+        ctx.count('hist:len-%s' % (len(ops) if len(ops) < 4 else '4+'))
+        if st != 'ok':
+            ctx.fail('C17:ToroidalVoxelGrid:raised', 'ToroidalVoxelGrid(active=%r) raised %s: %s' % (act, st, grid), desc)
+            continue
+        ref_vols = [voxmod().AxisymmetricVoxel(c).volume for c in cells]
+        ref = math.fsum(ref_vols)
+        snaps0 = [_snapshot(v) for v in grid]
+        observed = [grid.total_volume]
+        done = []
+        bad = None
+        if not close(observed[0], ref, 1e-12):
+            bad = ('after construction with active=%r' % (act,), observed[0])
+        for op in ops:
+            if bad:
+                break
+            st, _ = call(_apply_op, grid, op)
+            done.append(op)
+            expect_err = op[0] == 'S' and not (0 <= op[1] < m)
+            if (st != 'ok') != expect_err:
+                ctx.fail('C17:VoxelCollection:operation-raised', '%r raised %s on a grid of %d voxels' % (op, st, m), dict(desc, ops=[list(o) for o in done]))
+                break
+            tv = grid.total_volume
+            observed.append(tv)
+            if not close(tv, ref, 1e-12) or grid.count != m or len(grid) != m:
+                bad = ('after %r' % (done,), tv)
+            elif [_snapshot(v) for v in grid] != snaps0:
+                ctx.fail('C17:VoxelCollection:voxel-geometry-changed-by-activation', 'per-voxel area/centroid/volume changed after %r' % (done,), dict(desc, ops=[list(o) for o in done]))
+                break
+        if bad:
+            ctx.fail('C17:total_volume:depends-on-active-state',
+                     'grid of %d voxels (volumes %r, sum %r): total_volume = %r %s' % (m, ref_vols, ref, bad[1], bad[0]), dict(desc, ops=[list(o) for o in done]))
+        # K: the model's trace (constant) vs the observed totals; `W` is not an operation of the model
+        toks = ' '.join(t for t in (_op_tokens(o) for o in done) if t)
+        nmodel = 1 + sum(1 for o in done if o[0] != 'W')
+        obs_model_steps = [observed[0]] + [observed[i + 1] for i, o in enumerate(done) if o[0] != 'W']
+        jobs.append(('hist %d %d %s %s' % (-1 if act == 'all' else act, m, fs(ref_vols), toks), ('hist', desc, obs_model_steps[:nmodel])))
+
+
 def replay(ctx, path):
     r = json.load(open(path))
     rp = r.get('replay') or {}
@@ -980,6 +1311,35 @@ def replay(ctx, path):
         else:
             ctx.rng.seed(0)
             statistical_mean(ctx, c, g, mom, flags, rp['grid_samples'])
+    elif kind in ('alias', 'alias-grid'):
+        jobs = []
+        polys = [[tuple(p) for p in rp['vertices']]] if kind == 'alias' else [[tuple(p) for p in c] for c in rp['cells']]
+        alias_histories(ctx, jobs, polys)
+    elif kind == 'hist':
+        jobs = []
+        ops = [tuple(o) for o in rp['ops']]
+        ToroidalVoxelGrid = voxmod().ToroidalVoxelGrid
+        cells = [[tuple(p) for p in c] for c in rp['cells']]
+        grid = ToroidalVoxelGrid(cells, active=rp['active'])
+        ref = math.fsum(voxmod().AxisymmetricVoxel(c).volume for c in cells)
+        tv = [grid.total_volume]
+        for op in ops:
+            call(_apply_op, grid, op)
+            tv.append(grid.total_volume)
+        print('total_volume after each step:', tv, 'sum of all voxel volumes:', ref)
+        if not all(close(t, ref, 1e-12) for t in tv):
+            ctx.fail('C17:total_volume:depends-on-active-state', 'total_volume %r, sum of all voxel volumes %r after %r' % (tv, ref, ops), rp)
+    elif kind == 'quad':
+        from raysect.core.math.random import seed
+        w = [tuple(p) for p in rp['vertices']]
+        g = impl_geom(w)
+        pts = []
+        seed(rp['seed'])
+        g['voxel'].emissivity_from_function(lambda r, phi, z: pts.append((r, z)) or 1.0, rp['grid_samples'])
+        out = [q for q in pts if not (inside_even_odd(q[0], q[1], w) or edge_distance(q[0], q[1], w) <= 1e-9 * max(abs(c) for c in flat(w)))]
+        print('%d of %d sample points outside the polygon' % (len(out), len(pts)))
+        if out:
+            ctx.fail('C17:emissivity_from_function:sample-outside-cross-section', '%d of %d sample points outside %r' % (len(out), len(pts), w), rp)
     else:
         run(ctx)
     return ctx.finish()
